@@ -27,6 +27,12 @@ TRUSTED = [
     "arrives on a socket of its source address's family is the hypothesis `World.SameFamily` of the socket-level theorems",
 ]
 ASSUMPTIONS = ["integer-millisecond clock",
+               "a querier is a source sockaddr (address AND port): the two behaviours of the unchanged tree that contradict this reading are reported as known findings "
+               "(D24: identical bytes from another source within 1 s are dropped; D25: a held truncated packet and a plain query from two ports of one address are merged)",
+               "`async_remove_answers` (unregistration while answers are queued) is not in the Reply model: after an unregistration inside a scenario, queue flushes are "
+               "compared on the answers that were not withdrawn (additionals not at all); the oracle still demands the remaining answers within 1.2 s",
+               "replies of any size: the datagrams of one `async_send` call are taken together at the logical level, judged one by one by the oracle and compared byte for "
+               "byte with the model's encoder output (10..40 services: replies of 2..8 datagrams)",
                "one flowinfo/scope id per link-local peer address within a scenario (two peers with the same address text on different scopes are not generated)",
                "UDP source port 0 is not generated: `async_send_with_transport` sends to `port or 5353`, so a legacy query from port 0 would be "
                "answered to port 5353; port 0 is not a usable source port (RFC 768: 'no reply expected'), the model answers to `port`", "queries are delivered on one socket of the host per scenario (each socket has its own listener object)"]
@@ -221,7 +227,7 @@ def make_host(sim, layout):
     return host
 
 
-MODES = ["classic"] * 11 + ["big"] * 3 + ["twin"] * 3 + ["ports"] * 3
+MODES = ["classic"] * 10 + ["big"] * 3 + ["twin"] * 2 + ["ports"] * 2 + ["update"] * 2 + ["unregister"] * 2
 
 
 def make_big_infos(xr):
@@ -239,6 +245,72 @@ def make_big_infos(xr):
                                  properties={"path": "/%d" % i, "note": "n" * (10 + i % 30)},
                                  host_ttl=xr.choice([120, 120, 8]), other_ttl=xr.choice([4500, 4500, 5])))
     return infos
+
+
+def make_registry_infos(xr, mode):
+    """update: exactly one service; unregister: two or three services of one type (own hosts, or one shared host)"""
+    from zeroconf import ServiceInfo
+
+    n = 1 if mode == "update" else xr.choice([2, 2, 3])
+    share = xr.random() < 0.4
+    infos = []
+    for i in range(n):
+        addrs = [socket.inet_aton("10.0.0.%d" % (i + 1))]
+        infos.append(ServiceInfo("_a._tcp.local.", "Inst%d._a._tcp.local." % i, 8000 + i, addresses=addrs,
+                                 server="hostS.local." if share else "host%d.local." % i, properties={"k": "v%d" % i},
+                                 host_ttl=xr.choice([120, 120, 8]), other_ttl=xr.choice([4500, 4500, 5])))
+    return infos
+
+
+async def registry_family(sim, xr, box, zc, tr, uni, infos, deliver, peer):
+    """wave-4 seeds: queries around registry changes.  `update`: the only service was updated before the trace -- legacy, QU, QM and
+    probe queries must all be answered.  `unregister`: a query for the type is answered (unicast at once, pointer records queued for
+    multicast); a sibling is unregistered while they wait -- the remaining instance's answer must still go out."""
+    from zeroconf import DNSOutgoing, DNSQuestion, const as _k
+
+    def query(questions, port, ident, probe=False):
+        out = DNSOutgoing(_k._FLAGS_QR_QUERY)
+        for (name, typ, qu) in questions:
+            q = DNSQuestion(name, typ, _k._CLASS_IN)
+            q.unicast = qu
+            out.add_question(q)
+        if probe:
+            out.add_authorative_answer(infos[0].dns_pointer())
+        d = bytearray(out.packets()[0])
+        d[0], d[1] = ident >> 8, ident & 255
+        return bytes(d)
+
+    inf = infos[0]
+    if box["mode"] == "update":
+        shapes = [([(inf.type, _k._TYPE_PTR, False)], 40000), ([(inf.name, _k._TYPE_SRV, True)], 5353), ([(inf.name, _k._TYPE_TXT, False)], 5353),
+                  ([(inf.server, _k._TYPE_A, False)], 65535), ([(inf.name, _k._TYPE_ANY, True), (inf.type, _k._TYPE_PTR, False)], 5353)]
+        for k_ in range(xr.choice([2, 3, 4])):
+            qs, port = xr.choice(shapes)
+            deliver(query(qs, port, xr.choice([0, 1, 0x1234]) + k_, probe=xr.random() < 0.2), peer(xr.choice(["10.0.0.9", "10.0.0.8"]), "fe80::9", port), family="update")
+            await sim.sleep_ms(xr.choice([0, 1, 130, 1001, 2500]))
+        return
+    # unregister
+    port = xr.choice([5353, 5353, 40000, 5354])
+    if xr.random() < 0.4:
+        # seen less than a second ago: the pointer records go to the protected queue (1 .. 1.2 s)
+        for i_ in infos:
+            e = R.with_ttl(i_.dns_pointer(), int(i_.other_ttl))
+            e.created = float(sim.loop.ms - xr.choice([0, 500, 999]))
+            zc.cache.async_add_records([e])
+            tr.pokes.append((sim.loop.ms, uni.id(i_.dns_pointer())))
+    deliver(query([(inf.type, _k._TYPE_PTR, False)], port, 0 if port == 5353 else 0x4242), peer("10.0.0.9", "fe80::9", port), family="unregister")
+    await sim.sleep_ms(xr.choice([1, 5, 15]))
+    gone = infos[-1]
+    withdrawn = [gone.dns_pointer(), gone.dns_service(), gone.dns_text()]
+    if not [i_ for i_ in infos[:-1] if i_.server_key == gone.server_key]:
+        withdrawn += list(gone._get_address_and_nsec_records(None))
+    box["withdrawn"] = {uni.id(r) for r in withdrawn}
+    box["withdrawn_at"] = sim.loop.ms
+    t = await zc.async_unregister_service(gone)
+    await sim.sleep_ms(xr.choice([1500, 2500]))
+    # afterwards the remaining instances still answer
+    deliver(query([(inf.type, _k._TYPE_PTR, False), (inf.name, _k._TYPE_SRV, xr.random() < 0.5)], port, 7), peer("10.0.0.8", "fe80::8", port), family="unregister")
+    await t
 
 
 def run_scenario(seed, sc_no, mode=None):
@@ -264,11 +336,27 @@ def run_scenario(seed, sc_no, mode=None):
         await zc.async_wait_for_start()
         if mode == "big":
             infos = make_big_infos(xr)
+        elif mode in ("update", "unregister"):
+            infos = make_registry_infos(xr, mode)
         else:
             infos = R.make_infos(rng, ttl_bias=[1, 2, 4, 5, 8, 120, 120, 4500])
         uni = R.Universe()
+        if mode == "update":
+            # exactly one service, registered, then updated (new TXT and port) before the trace starts: the registry must still answer
+            from zeroconf import ServiceInfo
+            old = infos[0]
+            t = await zc.async_register_service(old)
+            await t
+            await sim.sleep_ms(xr.choice([1200, 5000]))
+            new = ServiceInfo(old.type, old.name, old.port + 1, addresses=old.addresses, server=old.server, properties={"k": "updated"},
+                              host_ttl=old.host_ttl, other_ttl=old.other_ttl)
+            t = await zc.async_update_service(new)
+            await t
+            infos = [new]
         R.seed_universe(uni, infos)
-        if mode == "big":
+        if mode == "update":
+            await sim.sleep_ms(xr.choice([1200, 2000, 30000]))
+        elif mode == "big":
             for inf in infos:
                 zc.registry.async_add(inf)      # no probing / announcing: 40 registrations would only cost time
             await sim.sleep_ms(1200)
@@ -294,6 +382,14 @@ def run_scenario(seed, sc_no, mode=None):
 
         def peer(ip4, ip6, port):
             return ((ip6, port) + v6peer[ip6]) if rx_v6 else (ip4, port)
+
+        if mode in ("update", "unregister"):
+            await registry_family(sim, xr, box, zc, tr, uni, infos, deliver, peer)
+            await sim.sleep_ms(3000)
+            box["end_t"] = sim.loop.ms
+            tr.uninstall()
+            await vsim.close_host(host)
+            return
 
         if mode == "big":
             from zeroconf import DNSOutgoing, DNSQuestion, const as _k
@@ -533,16 +629,35 @@ def check_trace_O(res, box, case):
     _c12.tc_pass(C.Result("C12"), tr, lis_blocks, case, box.get("end_t", 0))
     parsed_by_data = {b["data"]: b["parsed"] for b in tr.blocks if b["kind"] == "rx" and b.get("parsed")}
     # ---- nothing leaves the host outside a receive / timer / flush block ("by unicast alone", and nothing unsolicited)
-    for o in tr.orphans[:3]:
+    def goodbye(o):
+        # the goodbyes of a service the scenario unregistered (sent by the API's own task, outside the blocks): every record has TTL 0
+        from zeroconf._protocol.incoming import DNSIncoming
+        recs = DNSIncoming(o["data"]).answers()
+        return "withdrawn_at" in box and o["t"] >= box["withdrawn_at"] and recs and all(r.ttl == 0 for r in recs)
+
+    for o in [o for o in tr.orphans if not goodbye(o)][:3]:
         res.violate("C11:unsolicited-datagram", "a datagram to %s leaves the host outside every receive, truncated-query and queue block "
                     "(%d bytes at %d ms): it answers no query" % (o["to_full"], len(o["data"]), o["t"] - T0), dict(case, at_ms=o["t"] - T0))
     src_of = {}      # datagram bytes -> full source sockaddr of its latest delivery on this listener
     prev_rx = None   # the datagram this listener saw last (what the duplicate guard compares with)
+    held = {}        # (address, port) -> the distinct truncated datagrams of that querier still waiting for their reply
     for bi, b in enumerate(tr.blocks):
         at = dict(case, at_ms=b["t"] - T0)
         mine = b["kind"] == "qf" or b.get("lis") is box["lis"]
         if b["kind"] == "rx" and mine:
             src_of[b["data"]] = b["src_full"]
+        # a querier is a source sockaddr -- address AND port (second review 1(b)): the datagrams a reply must be based on are the
+        # truncated ones this querier sent before (distinct, not yet answered) and the one at hand
+        own = None
+        if b["kind"] == "rx" and mine and b.get("parsed"):
+            key = (b["src"][0], b["src"][1])
+            if b["parsed"]["flags"] & 0x200:
+                if b["data"] not in held.get(key, []) and (b.get("draws_tc") or not (prev_rx and prev_rx[0] == b["data"])):
+                    held.setdefault(key, []).append(b["data"])
+            elif b["asm"]:
+                own = held.pop(key, []) + [b["data"]]
+        elif b["kind"] == "tc" and mine and b["asm"]:
+            own = held.pop((b["addr"], b["asm"]["port"]), None)
         # ---- format, socket and destination of every datagram, reply by reply
         groups = reply_groups(b)
         for g in groups:
@@ -600,27 +715,40 @@ def check_trace_O(res, box, case):
                 res.violate("C11:identical-bytes-other-source-unanswered",
                             "a query from %s (source port %d, not 5353) gets no unicast reply because the preceding datagram, %s ms earlier from %s, "
                             "had the same bytes: %s are owed to this querier" % (b["src_full"], b["src"][1], ago, prev_rx[1], [uni.describe(i) for i in legacy_owed]), at)
+            any_owed = sorted({rid for qu, cands in pkt["items"] for (rid, ttl, _a, sup) in cands if unsup(rid, ttl, sup)})
+            repeat = prev_rx is not None and prev_rx[0] == b["data"] and b["t"] - prev_rx[2] < 1000
+            if any_owed and not owed and not b["outs"] and not repeat:
+                # nothing excuses the silence: not a repeat of the preceding datagram (C16), not truncated, the registry has the answers
+                res.violate("C11:query-unanswered", "a query from %s (port %d) is not handled at all: %s are owed a reply (%s) and the datagram is not a "
+                            "repeat of the one before it" % (b["src_full"], b["src"][1], [uni.describe(i) for i in any_owed][:6],
+                                                             "unicast, and the normal multicast" if b["src"][1] != 5353 else "multicast"), at)
         if b["kind"] == "rx" and mine:
-            prev_rx = (b["data"], b["src_full"])
+            prev_rx = (b["data"], b["src_full"], b["t"])
         # ---- a query that is answered: routing, destination, id, question echo -- one datagram or a truncated train, receive or timer block
         if b["asm"] and mine and b["kind"] in ("rx", "tc"):
             asm = b["asm"]
-            datas = b.get("want") or asm["datas"]
+            port = asm["port"]
+            ucast = [g for g in groups if not g["mcast"]]
+            mnow = [g for g in groups if g["mcast"]]
+            impl_srcs = sorted({(src_of[d][0], src_of[d][1]) for d in asm["datas"] if d in src_of})
+            for key_ in list(held):     # whatever this reply was based on is not waiting any more, whoever sent it
+                held[key_] = [d for d in held[key_] if d not in asm["datas"]]
+                if not held[key_]:
+                    del held[key_]
+            if len(impl_srcs) > 1:
+                # second review 1(b): datagrams of different (address, port) sources taken for one query -- a finding; nothing else is judged
+                f_ = parsed_by_data.get(asm["datas"][0])
+                res.violate("C11:held-tc-merged-with-other-port",
+                            "datagrams from different sources %s (one address, different source ports) were answered as one query: the reply goes to %s "
+                            "with id %s; the other querier gets nothing" % (impl_srcs, [o["to_full"] for g in ucast for o in g["outs"]][:1],
+                                                                           f_["id"] if f_ else "?"), at)
+                continue
+            datas = own or b.get("want") or asm["datas"]
             pkts = [parsed_by_data.get(d) for d in datas]
             if not pkts or any(p is None for p in pkts):
                 continue
             first = pkts[0]
-            port = asm["port"]
             srcs = {src_of.get(d) for d in datas}
-            ucast = [g for g in groups if not g["mcast"]]
-            mnow = [g for g in groups if g["mcast"]]
-            if len({(s[0], s[1]) for s in srcs if s}) > 1:
-                # second review 1(b): packets of different (address, port) sources taken for one query -- a finding; nothing else is judged
-                res.violate("C11:held-tc-merged-with-other-port",
-                            "datagrams from different sources %s (one address, different source ports) were answered as one query: the reply goes to %s "
-                            "with id %s; the other querier gets nothing" % (sorted((s[0], s[1]) for s in srcs if s),
-                                                                           [o["to_full"] for g in ucast for o in g["outs"]][:1], first["id"]), at)
-                continue
             src_full = next(iter(srcs)) if len(srcs) == 1 else None
             eu, em, el, dontcare = spec_routes(asm, pkts)
             got_u = set().union(*[set(o["ans"]) for g in ucast for o in g["outs"]]) if ucast else set()
@@ -655,6 +783,8 @@ def check_trace_O(res, box, case):
     # ---- "in addition to the normal multicast": what was routed to a queue does get multicast
     for bi, b in enumerate(tr.blocks):
         for rid in b.get("expect_later", ()):
+            if rid in box.get("withdrawn", ()) and box["withdrawn_at"] <= b["t"] + 1200:
+                continue  # withdrawn while it waited in a queue: the goodbye replaces it (C08)
             if not any(bj >= bi and b["t"] <= s <= b["t"] + 1200 and rid in ans for (bj, s, ans) in later_mcast):
                 res.violate("C11:multicast-missing", "%s is owed a multicast reply and none follows within 1.2 s" % uni.describe(rid), dict(case, at_ms=b["t"] - T0))
 
@@ -737,6 +867,46 @@ def world_str(box, tr, blocks):
     parts.append(str(len(tr.uni.recs)))
     parts += [kind_of(r) for r in tr.uni.recs]
     return " ".join(parts)
+
+
+def strip_obs(obs, gone):
+    """a logical observation with the withdrawn records taken out of every multicast's answers and its additionals dropped; a multicast
+    left without answers disappears"""
+    outs, draws = obs.split(" ", 1)
+    keep = []
+    items = [] if outs == "-" else _split_outs(outs)
+    for it in items:
+        if it.startswith("m:"):
+            ans = [x for x in it.split(":")[1].split(",") if x != "-" and int(x) not in gone]
+            if ans:
+                keep.append("m:%s:*" % ",".join(ans))
+        else:
+            keep.append(it)
+    return "%s %s" % (",".join(sorted(keep)) or "-", draws)
+
+
+def _split_outs(outs):
+    """the descriptors of `block_obs11` (comma-separated, and commas occur inside them): split at the `m:` / `u:` heads"""
+    import re
+    idx = [m.start() for m in re.finditer(r"(?:^|,)(?=[mu]:)", outs)]
+    parts = []
+    for a, b_ in zip(idx, idx[1:] + [len(outs)]):
+        parts.append(outs[a:b_].strip(","))
+    return parts
+
+
+def strip_phys(phys, gone):
+    """the same for the physical descriptors: multicast datagrams (id 0 to a group address) keep their non-withdrawn answers only"""
+    keep = []
+    for it in ([] if phys == "-" else phys.split(" ")):
+        head, wid, flags, qs, ans, add = it.split("|")
+        if ">g4/" in head or ">g6/" in head:
+            left = [x for x in ans.split(",") if x != "-" and int(x.split(".")[0]) not in gone]
+            if left:
+                keep.append("|".join([head, wid, flags, qs, ",".join(left), "*"]))
+        else:
+            keep.append(it)
+    return " ".join(sorted(keep)) or "-"
 
 
 def block_obs11(tr, b):
@@ -890,6 +1060,16 @@ def run_trace_stream(ctx, res, n, only=None):
             mphys = [x.split(" ;; ")[1] if " ;; " in x else None for x in mboth]
             iobs = [b["obs"] for b in kept]
             iphys = [b["phys"] for b in kept]
+            if "withdrawn_at" in box:
+                # `async_remove_answers` (an unregistration while answers are queued) is not in the Reply model (C12's package adds it):
+                # from the unregistration on, multicasts are compared on their answers that were not withdrawn; additionals not at all
+                gone = box["withdrawn"]
+                for j, b in enumerate(kept):
+                    if b["t"] >= box["withdrawn_at"]:
+                        if j < len(mobs):
+                            mobs[j], iobs[j] = strip_obs(mobs[j], gone), strip_obs(iobs[j], gone)
+                        if j < len(mphys) and mphys[j] is not None:
+                            mphys[j], iphys[j] = strip_phys(mphys[j], gone), strip_phys(iphys[j], gone)
             if not head.startswith("ok") or mobs != iobs:
                 kk = next((j for j, (a, b) in enumerate(zip(mobs, iobs)) if a != b), min(len(mobs), len(iobs)))
                 res.disagree("c11run", dict(case, at_block=kk, at_ms=(kept[kk]["t"] - T0) if kk < len(kept) else None),
@@ -900,7 +1080,7 @@ def run_trace_stream(ctx, res, n, only=None):
                 res.disagree("c11net", dict(case, at_block=kk, at_ms=(kept[kk]["t"] - T0) if kk < len(kept) else None),
                              iphys[kk] if kk < len(iphys) else None, mphys[kk] if kk < len(mphys) else None)
         check_trace_O(res, box, case)
-        for (rid, s_, c_, e_) in R.sighting_gaps(tr, maxdelay=0)[:2]:
+        for (rid, s_, c_, e_) in [g_ for g_ in R.sighting_gaps(tr, maxdelay=0) if g_[0] not in box.get("withdrawn", ())][:2]:
             res.disagree("sightings", dict(case, at_ms=c_), "cache entry of %s at %d ms: %s" % (tr.uni.describe(rid), c_, e_),
                          "the host multicast it at %d ms: its own transmission must have re-stamped the cache" % s_)
         for b in kept:
@@ -919,7 +1099,9 @@ def run_trace_stream(ctx, res, n, only=None):
 def run(ctx):
     res = _Result("C11")
     res.rule = ("fmt: every record kind x class with/without top bit x multicast/unicast x ids {0,1,0xabcd,65535}; send: socket family x 6 address spellings; "
-                "tr: responder scenarios (1..3 services, TTLs 1..4500 s; socket layouts {4, 46, 64, 44, 446}, queries received on any one socket; 1..6 queries of 1..4 questions, QU/QM per "
+                "tr: responder scenarios in six families -- classic (1..3 services), big (10..40 services of one type: split replies), twin (identical bytes from another "
+                "source sockaddr), ports (two source ports of one address around a held truncated packet), update (the only service updated), unregister (a sibling withdrawn "
+                "while answers are queued) -- TTLs 1..4500 s; socket layouts {4, 46, 64, 44, 446}, queries received on any one socket; 1..6 queries of 1..4 questions, QU/QM per "
                 "question, +/- authority section, any id, source ports {5353, 40000, 1, 65535, 5354}, cache pokes at ttl/4 -1/0/+1 ms and around 1 s); "
                 "per datagram compared with the model: socket, complete destination sockaddr (IPv6 flowinfo / scope id), id, flags, question section, raw class field of "
                 "every record (c11net), and the bytes (c11bytes: reply constructor + C01's encoder model); "
@@ -932,7 +1114,9 @@ def run(ctx):
             run_trace_stream(ctx, res, 0, only=[(body["seed"], body["scenario"], body.get("mode"))])
     run_fmt_stream(ctx, res)
     run_send_stream(ctx, res)
-    run_trace_stream(ctx, res, bt)
+    # in chunks: a chunk's traces are dropped before the next is generated (thorough: 30 000 scenarios)
+    for start in range(0, bt, 500):
+        run_trace_stream(ctx, res, 0, only=[(ctx["seed"], k_) for k_ in range(start, min(bt, start + 500))])
     return res
 
 
